@@ -239,6 +239,9 @@ fn match_nested_brackets<'text: 'a, 'a, Sc, A>(
     // Detected open tokens as (index, count) pairs.
     let mut opened: SmallVec<[(usize, usize); DEFAULT_TOKEN_VEC_SIZE]>
         = SmallVec::with_capacity(open_tokens.len());
+    // The spans of the open brackets which are not closed yet.
+    let mut open_spans: SmallVec<[Span; DEFAULT_TOKEN_VEC_SIZE]>
+        = SmallVec::with_capacity(open_tokens.len());
 
     while let Some(tok) = lexer.peek() {
         if let Some(idx) = close_tokens.iter().position(|t| t == &tok) {
@@ -252,7 +255,8 @@ fn match_nested_brackets<'text: 'a, 'a, Sc, A>(
 
                 // Wrong close token for current open token.
                 Some((t, _)) if t != idx => return Err(Mismatch {
-                    found_start: open_lexer.unwrap().peek_token_span().unwrap(),
+                    // The innermost open bracket is the mismatched one.
+                    found_start: *open_spans.last().unwrap(),
                     found_end: lexer.peek_token_span().unwrap(),
                 }),
 
@@ -271,6 +275,7 @@ fn match_nested_brackets<'text: 'a, 'a, Sc, A>(
                 // Closes an inner bracket nested in brackets of another kind.
                 Some(_) => (),
             }
+            let _ = open_spans.pop();
         } else if let Some(idx) = open_tokens.iter().position(|t| t == &tok) {
             event!(Level::TRACE, "found open token ({:?} idx={} @ {})",
                 tok, idx, lexer.cursor_pos());
@@ -278,6 +283,7 @@ fn match_nested_brackets<'text: 'a, 'a, Sc, A>(
             if open_lexer.is_none() { 
                 open_lexer = Some(lexer.clone());
             }
+            open_spans.push(lexer.peek_token_span().unwrap());
             match opened.pop() {
                 None => {
                     opened.push((idx, 1));
